@@ -59,7 +59,7 @@ func ZZ_C05_comp() {
 		ticks += d
 		zzCompNow = ticks * fi
 		at[t] = ticks
-		zzMotionBit = zzBool("m", t)
+		zzMotionBit, zzEvIdx = zzBool("m", t), t
 		base.writes = 0
 		h.bad, h.seq, h.t = false, t, t
 		err := mp.Process(raw)
